@@ -83,17 +83,17 @@ type khTimepoint struct {
 }
 
 type keyHistory struct {
-	t      *testing.T
-	r      *ev.Run
-	n      *node.Node
-	ks     nutsCrypto.KeyStore
-	ld     jsonld.JSONLD
-	vcr    vcr.VCR
-	vdr    vdr.VDR
-	holder *iamflow.Holder // did:jwk subject of the credentials / wrapper of credentials for the presentation API
-	ids    []*khIdentity
-	back   time.Time // the date harness-signed artefacts carry: well before the DID documents existed
-	done   chan struct{}
+	t       *testing.T
+	r       *ev.Run
+	n       *node.Node
+	ks      nutsCrypto.KeyStore
+	ld      jsonld.JSONLD
+	vcr     vcr.VCR
+	vdr     vdr.VDR
+	holder  *iamflow.Holder // did:jwk subject of the credentials / wrapper of credentials for the presentation API
+	ids     []*khIdentity
+	back    time.Time // the date harness-signed artefacts carry: well before the DID documents existed
+	done    chan struct{}
 	broken  bool
 	elapsed time.Duration
 	mu      sync.Mutex
